@@ -5,7 +5,7 @@
    rejects forward chains: refuted by a witness (known finding).  Tested only: the multi-name
    relabel as a whole, relabelDisjointFrom, Betti invariance. *)
 From Coq Require Import String ZArith Bool Arith List.
-From SV Require Import Names NamesFacts ListFacts Rep Fresh Complex Atomic RepInv Reach RelabelProofs.
+From SV Require Import Names NamesFacts ListFacts Rep Fresh Complex Atomic RepInv Reach RelabelProofs Homology RelabelAll.
 Import ListNotations.
 
 Theorem C15_one_rename_carries_structure_partial :
@@ -32,3 +32,31 @@ Theorem C15_forward_chain_refuted :
     Ok [(NStr "a", NStr "x"); (NStr "b", NStr "c")].
 Proof. exact forward_chain_refuted. Qed.
 Print Assumptions C15_forward_chain_refuted.
+
+(* a whole relabel() -- completed, rejected by the pre-check, or stopped at a rejected single rename
+   -- leaves the matrices and the number of orders untouched and renames every listing pointwise
+   by one function phi ... *)
+Theorem C15_relabel_changes_names_only :
+  forall r rn r' st x, pinv r -> relabel r rn = (r', st, x) -> exists phi, renamed_by phi r r'.
+Proof. exact relabel_renames. Qed.
+Print Assumptions C15_relabel_changes_names_only.
+(* ... along which order, listing position, faces, cofaces and basis of every simplex are carried *)
+Theorem C15_structure_carried :
+  forall phi r r', pinv r -> pinv r' -> renamed_by phi r r' ->
+  forall s k i, assoc s (r_simp r) = Some (k, i) ->
+  assoc (phi s) (r_simp r') = Some (k, i) /\
+  faces r' (phi s) = map phi (faces r s) /\ cofaces r' (phi s) = map phi (cofaces r s) /\
+  basisOf r' (phi s) = map phi (basisOf r s).
+Proof. exact renamed_structure. Qed.
+Print Assumptions C15_structure_carried.
+(* ... and boundary operators, Smith normal forms, Betti numbers, Euler characteristic and the
+   per-order counts are unchanged *)
+Theorem C15_betti_unchanged :
+  forall phi r r', renamed_by phi r r' ->
+  (forall k, boundaryOperator r' k = boundaryOperator r k) /\
+  (forall k, smithNormalForm r' k = smithNormalForm r k) /\
+  (forall ks, bettiNumbers r' ks = bettiNumbers r ks) /\
+  eulerCharacteristic r' = eulerCharacteristic r /\
+  numberOfSimplicesOfOrder r' = numberOfSimplicesOfOrder r.
+Proof. exact renamed_homology. Qed.
+Print Assumptions C15_betti_unchanged.
